@@ -691,7 +691,8 @@ func (d *Data) cleaveIndex(v dvid.VersionID, op labels.CleaveOp, info dvid.ModIn
 
 // ChangeLabelIndex applies changes to a label's index and then stores the result.
 // Supervoxel size changes for blocks should be passed into the function.  The passed
-// SupervoxelDelta can contain more supervoxels than the label index.
+// SupervoxelChanges must hold only supervoxels that map to the label; they can be
+// supervoxels the label index has no voxels of.
 func ChangeLabelIndex(d dvid.Data, v dvid.VersionID, label uint64, delta labels.SupervoxelChanges) error {
 	shard := label % numIndexShards
 	indexMu[shard].Lock()
@@ -931,11 +932,18 @@ type blockChange struct {
 // mutex-guarded label index mutation routine.
 func (d *Data) aggregateBlockChanges(v dvid.VersionID, svmap *VCache, ch <-chan blockChange) {
 	mappedVersions := svmap.getMappedVersionsDist(v)
-	labelset := make(labels.Set)
-	svChanges := make(labels.SupervoxelChanges)
+	// changes are kept per mapped label: a label's index must take every supervoxel mapped to it,
+	// including one with no voxels left in the index (all overwritten earlier) that is written again.
+	labelChanges := make(map[uint64]labels.SupervoxelChanges)
 	var maxLabel uint64
 	for change := range ch {
 		for supervoxel, delta := range change.delta {
+			label, _ := svmap.mapLabel(supervoxel, mappedVersions)
+			svChanges, found := labelChanges[label]
+			if !found {
+				svChanges = make(labels.SupervoxelChanges)
+				labelChanges[label] = svChanges
+			}
 			blockChanges, found := svChanges[supervoxel]
 			if !found {
 				blockChanges = make(map[dvid.IZYXString]int32)
@@ -945,8 +953,6 @@ func (d *Data) aggregateBlockChanges(v dvid.VersionID, svmap *VCache, ch <-chan 
 			if supervoxel > maxLabel {
 				maxLabel = supervoxel
 			}
-			label, _ := svmap.mapLabel(supervoxel, mappedVersions)
-			labelset[label] = struct{}{}
 		}
 	}
 	go func() {
@@ -955,7 +961,7 @@ func (d *Data) aggregateBlockChanges(v dvid.VersionID, svmap *VCache, ch <-chan 
 		}
 	}()
 	if d.IndexedLabels {
-		for label := range labelset {
+		for label, svChanges := range labelChanges {
 			if err := ChangeLabelIndex(d, v, label, svChanges); err != nil {
 				dvid.Errorf("indexing label %d: %v\n", label, err)
 			}
